@@ -96,6 +96,8 @@ def density_shapes(n):
         "decls": "".join("const C: i32 = 1;\n" for _ in range(n)),
         "reference_steps": "fn main()\n{\n\tvar y = x" + ".a[0]" * (n // 2) + ";\n}\n",
         "amp_chain": "fn main()\n{\n\tvar y = " + "&" * n + "x;\n}\n",
+        "amp_target": "fn main()\n{\n\t" + "&" * n + "x = 1;\n}\n",
+        "amp_length": "fn main()\n{\n\tvar y = |" + "&" * n + "x|;\n}\n",
         "strings": "fn main()\n{\n\tvar y = " + " ".join('"s"' for _ in range(n)) + ";\n}\n",
         "literals": "const T: [%d]i32 = [%s];\n" % (n, ", ".join(("%d" % (k % 10), "'a'", "true", "0x1Fu8")[k % 4] for k in range(n))),
         "literal_statements": "fn main()\n{\n\tvar x = 0;\n" + "\tx = x + 1;\n" * n + "}\n",
@@ -156,7 +158,7 @@ def cases(tier, seed):
             if len(text) > MAX_BYTES:
                 continue
             # references are limited to 127 address markers / steps (E390): beyond that the shape is not well-formed
-            limited = shape in ("amp_chain", "reference_steps") and n > 120
+            limited = shape in ("amp_chain", "amp_target", "amp_length", "reference_steps") and n > 120
             yield {"kind": "density:" + shape, "build": "rel" if n > 200 else "chk", "data": text, "meta": {"n": n},
                    "expect": None if limited else "accept", "shape": shape + ("" if n <= 200 else ":large")}
     # long lists and operator chains (the dumps must walk them without one stack frame per element)
@@ -175,7 +177,7 @@ def cases(tier, seed):
     # the documented limit of 127 address markers / access steps per reference (E390), on both sides of every wrap-around
     # of a narrow counter
     for n in (1, 126, 127, 128, 129, 200, 254, 255, 256, 257, 300, 383, 384, 511, 512, 513, 1000, 1024, 4096):
-        for shape in ("amp_chain", "reference_steps"):
+        for shape in ("amp_chain", "amp_target", "amp_length", "reference_steps"):
             units = n
             text = density_shapes(units)[shape]
             for build in ("chk", "rel"):
@@ -195,7 +197,7 @@ def cases(tier, seed):
         if not gaps:
             continue
         k = rng.choice(gaps)
-        bad = rng.choice(["@", "#", "$", "~", "`", "?", "\x01", "\x7f", "12q", "0x1g", "'ab'", '"\\q"', '"a\x7fb"', '"\x07"', "'\x7f'",
+        bad = rng.choice(["@", "#", "$", "~", "`", "?", "\x01", "\x7f", "12q", "0x1g", "'ab'", '"\\q"', '"a\x7fb"', '"\x07"', "'\x7f'", '"\\u{D800}"', '"\\u{DFFF}"', '"\\u{dabc}"',
                           '"tab\there"', '"\\u{0000041}"', '"\\x4"'])
         toks.insert(k, " " + bad + " ")
         yield {"kind": "invalid_lexeme", "data": "".join(toks), "expect": "reject_lex", "meta": bad}
